@@ -439,16 +439,16 @@ def regenerate(ctx):
     try:
         gen_scales.main(os.path.join(C.SRC, "scales.py"), os.path.join(C.COQ, "gen", "Scales.v"))
     except (Unsupported, SyntaxError, OSError) as e:
-        ctx.fail("translator gen/scales.py no longer recognises scales.py: %s" % e,
-                 dict(correspondence="gen/scales.py -> coq/gen/Scales.v", error=str(e)), kind="tie", no_input=True)
-        ok = False
+        if not C.tie_fallback(ctx, "translator gen/scales.py no longer recognises scales.py: %s" % e,
+                 dict(correspondence="gen/scales.py -> coq/gen/Scales.v", error=str(e)), kind="tie", no_input=True):
+            ok = False
     try:
         gen_idx.main(os.path.join(C.SRC, "filters.py"), os.path.join(C.COQ, "gen", "C06Index.v"))
     except (Unsupported, SyntaxError, OSError, AttributeError, IndexError) as e:
         # the generated file is left as it was, so the proofs still build; the tie is reported broken
-        ctx.fail("translator gen/filters_c06.py no longer recognises the index arithmetic of filters.py: %s" % e,
-                 dict(correspondence="gen/filters_c06.py -> coq/gen/C06Index.v", error=str(e)), kind="tie", no_input=True)
-        ctx.translator_failed = True
+        if not C.tie_fallback(ctx, "translator gen/filters_c06.py no longer recognises the index arithmetic of filters.py: %s" % e,
+                              dict(correspondence="gen/filters_c06.py -> coq/gen/C06Index.v", error=str(e)), kind="tie", no_input=True):
+            ctx.translator_failed = True
     return ok
 
 
